@@ -16,6 +16,10 @@ Theorems about the regenerated regexes (`RTV.Gen.ipv4Regex` … — what the tra
 model of `BaseIpExtractor.extract` / `BaseIpParser.drop_leading_zeros` (`RTV.Seq`).  They hold for **every** string and
 position and for **every** engine tables `T` (what `\d`, `\w` mean) unless a hypothesis says otherwise.
 
+What the EXTRACTOR reports (finditer over both patterns, the `matched` sweep, the ellipsis guards) — completeness with
+the exact span for IPv4 and IPv6 tokens, soundness, and the behaviour on longer dotted runs such as `0.1.2.3.4` — is in
+`Props/C13Extract.lean`.
+
 History: before /repo commit d5d414a77 the patterns used `\d`, and soundness failed for the engine's real tables
 (Unicode Nd): witness `1.2.3.٤`.  That is kept as a regression theorem about the literal pre-fix pattern
 (`prefix_ipv4_unsound_unicode_digits`), next to the proof that the current pattern rejects the witness; the
@@ -139,9 +143,9 @@ theorem ipv6_sound (T : Tables) (s : Array Nat) (i j : Nat) (h : Matches T RTV.G
     V6At s i j := V6Match_sound ((ipv6_lang T s i j).1 h)
 
 /-- C13 completeness for IPv6, exploded and every compressed form: an address text at `[i, j)` with no word
-character touching it from outside is matched from `i` to `j`.  (Which end the engine tries *first* among several
-matching ends is a matter of priority order, covered by the regex correspondence and the pipeline, not by this
-theorem: e.g. from the start of `1::2:3` the lower-priority end after `1::2` is also a match.) -/
+character touching it from outside is matched from `i` to `j`.  (This is membership only: from the start of `1::2:3` the end after `1::2` is also a match.
+Which end the engine reports FIRST is `ipv6_reported_span` in `Props/C13Extract.lean`, and what the extractor then
+reports is `ipv6_extract_complete` there.) -/
 theorem ipv6_complete {T : Tables} (hwx : ∀ c, isHexI c → T.word c = true) (hc : T.word 58 = false)
     (s : Array Nat) (i j : Nat) (hd : Delim T s i j) (hv : V6At s i j) :
     Matches T RTV.Gen.ipv6Regex s i j :=
@@ -491,11 +495,18 @@ theorem guid_complete_unique_braced (T : Tables) (s : Array Nat) (i k : Nat) (h0
     · omega
   · rintro rfl; exact .inr (.inl ⟨h0, k, hc, h1, rfl⟩)
 
-/-- hence the engine reports exactly the token (both layouts) -/
+/-- hence the engine reports exactly the token — plain / upper-case / undashed layouts (a core between word
+boundaries); the braced layout is `guid_reported_span_braced` -/
 theorem guid_reported_span (T : Tables) (s : Array Nat) (i j : Nat) (hc : GuidCoreAt s i j)
     (hbi : isWordB T s i = true) (hbj : isWordB T s j = true) :
     firstEnd T s RTV.Gen.guidRegex i = some j :=
   firstEnd_of_unique (guid_complete_unique_plain T s i j hc hbi hbj)
+
+/-- … and the braced layout `{core}`: the engine reports it with both braces, whatever surrounds it -/
+theorem guid_reported_span_braced (T : Tables) (s : Array Nat) (i k : Nat) (h0 : code s i = 123)
+    (hc : GuidCoreAt s (i + 1) k) (h1 : code s k = 125) :
+    firstEnd T s RTV.Gen.guidRegex i = some (k + 1) :=
+  firstEnd_of_unique (guid_complete_unique_braced T s i k h0 hc h1)
 
 /-- the hypotheses are satisfiable (real engine tables): `{01234567-89AB-cdef-0123-456789abcdef}` and the core alone -/
 example : firstEnd RTV.Gen.reTables
